@@ -747,6 +747,8 @@ func runC10(r *run) {
 	}
 	c10WriterIsolation(r, g)
 	c10Env(r)
+	emptyWithCalls(r.violate)
+	skipChildKeepsItsSettings(r.violate)
 	slog.VerifResetGlobals()
 }
 
